@@ -75,12 +75,19 @@ PairClauses(c, o) ==
                   ELSE IF RUnrep(o[op]) THEN "SKIP"
                   ELSE IF RMV(o[op]) = GradeSel(RG, SelGrades(op, r, s, c.n))
                        THEN "OK" ELSE "FAIL"
-    IN  [i \in 1..5 |-> Cl("table", MvOps[i], MVIs(o[MvOps[i]], E[MvOps[i]], c.n))]
-        \o << Cl("table", "scl", ScIs(o.scl, ScalarPart(E.scl))) >>
-        \o [i \in 1..4 |-> Cl("gradepart", MvOps[i + 1], GP(MvOps[i + 1]))]
-        \o << Cl("gradepart", "scl",
-                 IF ~geoOK THEN "FAIL" ELSE ScIs(o.scl, ScalarPart(RG))),
-              Cl("anticommute", "geo",
+        \* core clauses (every pair): product tables, grade-part characterisation
+        core ==
+          [i \in 1..5 |-> Cl("table", MvOps[i], MVIs(o[MvOps[i]], E[MvOps[i]], c.n))]
+          \o << Cl("table", "scl", ScIs(o.scl, ScalarPart(E.scl))) >>
+          \o [i \in 1..4 |-> Cl("gradepart", MvOps[i + 1], GP(MvOps[i + 1]))]
+          \o << Cl("gradepart", "scl",
+                   IF ~geoOK THEN "FAIL" ELSE ScIs(o.scl, ScalarPart(RG))),
+                Cl("bool-of-result", "bool",
+                   St(\E i \in 1..5 : MVBad(E[MvOps[i]]),
+                      \A i \in 1..5 : o.tb[i] = B01(E[MvOps[i]] # MVZero))) >>
+        \* further clauses (all pairs except the "lite" ones of dimension 5)
+        extra ==
+           << Cl("anticommute", "geo",
                  IF r = 1 /\ s = 1 /\ c.a # c.b
                  THEN (IF ~geoOK \/ o.ba.t # "mv" \/ RUnrep(o.ba) THEN "FAIL"
                        ELSE St(FALSE, MVAdd(RG, RMV(o.ba)) = MVZero))
@@ -94,15 +101,13 @@ PairClauses(c, o) ==
                  Both(MVIs(o.rev_ab, MVRev(E.geo), c.n), MVSame(o.rev_ab, o.revb_reva))),
               Cl("invol-automorphism", "invol",
                  Both(MVIs(o.inv_ab, MVInvol(E.geo), c.n), MVSame(o.inv_ab, o.inva_invb))),
-              Cl("bool-of-result", "bool",
-                 St(\E i \in 1..5 : MVBad(E[MvOps[i]]),
-                    \A i \in 1..5 : o.tb[i] = B01(E[MvOps[i]] # MVZero))),
               \* commutator product (1.1.55) in Hestenes/Sobczyk: (AB - BA)/2
               Cl("commutator", "x",
                  MVIs(o.x, MVScale(<< 1, 2 >>, MVSub(E.geo, BA)), c.n)) >>
-        \* a bare Python scalar as left / right operand gives the same products
-        \o [i \in 1..Len(o.rl) |-> Cl("scalar-left-operand", MvOps[i], MVIs(o.rl[i], E[MvOps[i]], c.n))]
-        \o [i \in 1..Len(o.rr) |-> Cl("scalar-right-operand", MvOps[i], MVIs(o.rr[i], E[MvOps[i]], c.n))]
+           \* a bare Python scalar as left / right operand gives the same products
+           \o [i \in 1..Len(o.rl) |-> Cl("scalar-left-operand", MvOps[i], MVIs(o.rl[i], E[MvOps[i]], c.n))]
+           \o [i \in 1..Len(o.rr) |-> Cl("scalar-right-operand", MvOps[i], MVIs(o.rr[i], E[MvOps[i]], c.n))]
+    IN  IF c.lite = 1 THEN core ELSE core \o extra
 
 (****************************** triple *************************************)
 TripleClauses(c, o) ==
